@@ -165,8 +165,13 @@ where
 impl<'a, T, L: MutLayout> SplitIterator for AxisChunks<'a, T, L> {
     fn split_at(mut self, index: usize) -> (Self, Self) {
         let (left_remainder, right_remainder) = if let Some(remainder) = self.remainder.take() {
-            let (l, r) = remainder.split_at(self.axis, self.chunk_size * index);
-            (Some(l), Some(r))
+            // The last chunk may be shorter than `chunk_size`.
+            let mid = (self.chunk_size * index).min(remainder.size(self.axis));
+            let (l, r) = remainder.split_at(self.axis, mid);
+            // An exhausted iterator is represented by `None`, not an empty view.
+            let left = (l.size(self.axis) > 0).then_some(l);
+            let right = (r.size(self.axis) > 0).then_some(r);
+            (left, right)
         } else {
             (None, None)
         };
@@ -193,8 +198,13 @@ impl<'a, T, L: MutLayout + Send> IntoParallelIterator for AxisChunks<'a, T, L> {
 impl<'a, T, L: MutLayout> SplitIterator for AxisChunksMut<'a, T, L> {
     fn split_at(mut self, index: usize) -> (Self, Self) {
         let (left_remainder, right_remainder) = if let Some(remainder) = self.remainder.take() {
-            let (l, r) = remainder.split_at_mut(self.axis, self.chunk_size * index);
-            (Some(l), Some(r))
+            // The last chunk may be shorter than `chunk_size`.
+            let mid = (self.chunk_size * index).min(remainder.size(self.axis));
+            let (l, r) = remainder.split_at_mut(self.axis, mid);
+            // An exhausted iterator is represented by `None`, not an empty view.
+            let left = (l.size(self.axis) > 0).then_some(l);
+            let right = (r.size(self.axis) > 0).then_some(r);
+            (left, right)
         } else {
             (None, None)
         };
